@@ -119,9 +119,9 @@ Proof.
   intros [(-> & -> & _)|[(-> & -> & _)|(-> & -> & _)]]; split; reflexivity.
 Qed.
 
-Lemma fpre_ok sa sb cab cba qa qb oa ba offa ob bb offb :
+Lemma fpre_ok sa sb cab cba qa qb oa ba offa ob bb offb fly :
   pre sa sb cab cba ->
-  ps_ok (mkPS qa qb 0 0 0 0) (snap_of (mkInner sa oa ba offa)) (snap_of (mkInner sb ob bb offb)) = true.
+  ps_ok (mkPS qa qb 0 0 0 0) (snap_of (mkInner sa oa ba offa)) (snap_of (mkInner sb ob bb offb)) fly = true.
 Proof.
   pose proof fw_range as (Hw & _).
   intros [(-> & -> & _)|[(-> & -> & _)|(-> & -> & _)]]; unfold ps_ok, win_ok, snap_of;
@@ -197,9 +197,9 @@ Proof.
     + split; [reflexivity|]. split; [assumption|]. right. left. auto.
 Qed.
 
-Lemma ps_ok_devirt pv sa sb :
-  ps_ok pv sa sb = true -> n_slevel sa = n_swin sa -> o_ba pv = 1 ->
-  ps_ok (set_oba pv 0) (mkSnap 0 0 0 0) sb = true.
+Lemma ps_ok_devirt pv sa sb fly fly' :
+  ps_ok pv sa sb fly = true -> n_slevel sa = n_swin sa -> o_ba pv = 1 ->
+  ps_ok (set_oba pv 0) (mkSnap 0 0 0 0) sb fly' = true.
 Proof.
   unfold ps_ok, win_ok, set_oba. cbn [f_ab f_ba o_ab o_ba n_rlevel n_rack n_slevel n_swin]. lia.
 Qed.
@@ -222,7 +222,8 @@ Definition step_concl (s : sys) (p : pstate) (o : sop) : Prop :=
             | _ => false
             end in
   exists p', pmon_step p o r hd = Some p' /\ fresh_inv s' p' /\
-    ps_ok p' (snap_of (epA s')) (snap_of (epB s')) = true /\
+    (forall fly, fly = (existsb seg_has_ack (chAB s') || existsb seg_has_ack (chBA s')) ->
+       ps_ok p' (snap_of (epA s')) (snap_of (epB s')) fly = true) /\
     chAB s' = match o, r with
               | SPoll SA _, RBytes (x :: l) => chAB s ++ [x :: l]
               | SDeliver SB, _ => tl (chAB s)
@@ -239,7 +240,7 @@ Proof.
   intro H. pose proof fm_range as Hm. pose proof fw_range as (Hw & Hc).
   destruct (sys_step_inv fm fw Hm Hw Hc c s p o H) as (p' & Hs & Hi & HA & HB).
   exists p'. split; [exact Hs|]. split; [apply FEst; exact Hi|].
-  split; [apply (ps_ok_inv fm fw Hm Hw Hc c); exact Hi|]. split; assumption.
+  split; [intros fly ->; apply (ps_ok_inv fm fw Hm Hw Hc c); exact Hi|]. split; assumption.
 Qed.
 
 Lemma fresh_step_pre sa sb cab cba oaA bA oaB bB o :
@@ -257,20 +258,20 @@ Proof.
       destruct (send_out oaA bA 0 d (addrB c)) as [[[oa' b'] off'] r]. cbn [fst snd] in *. subst off'.
       destruct Hcases as [(-> & Hq)|[(-> & ->)|((e & ->) & -> & Ebad)]].
       * eexists. split; [reflexivity|]. cbn [w_ab w_ba f_ab f_ba o_ab o_ba]. rewrite <- Hq.
-        split; [apply FPre; assumption|]. split; [eapply fpre_ok; eassumption|]. split; reflexivity.
+        split; [apply FPre; assumption|]. split; [intros fly _; eapply fpre_ok; eassumption|]. split; reflexivity.
       * eexists. split; [reflexivity|].
-        split; [apply FPre; assumption|]. split; [eapply fpre_ok; eassumption|]. split; reflexivity.
+        split; [apply FPre; assumption|]. split; [intros fly _; eapply fpre_ok; eassumption|]. split; reflexivity.
       * eexists. split; [cbn [pmon_step is_bad]; rewrite Ebad; reflexivity|].
-        split; [apply FPre; assumption|]. split; [eapply fpre_ok; eassumption|]. split; reflexivity.
+        split; [apply FPre; assumption|]. split; [intros fly _; eapply fpre_ok; eassumption|]. split; reflexivity.
     + destruct (send_out_cases _ _ _ d HB) as (Eoff & Hok' & Hcases). cbv zeta in *.
       destruct (send_out oaB bB 0 d (addrA c)) as [[[oa' b'] off'] r]. cbn [fst snd] in *. subst off'.
       destruct Hcases as [(-> & Hq)|[(-> & ->)|((e & ->) & -> & Ebad)]].
       * eexists. split; [reflexivity|]. cbn [w_ab w_ba f_ab f_ba o_ab o_ba]. rewrite <- Hq.
-        split; [apply FPre; assumption|]. split; [eapply fpre_ok; eassumption|]. split; reflexivity.
+        split; [apply FPre; assumption|]. split; [intros fly _; eapply fpre_ok; eassumption|]. split; reflexivity.
       * eexists. split; [reflexivity|].
-        split; [apply FPre; assumption|]. split; [eapply fpre_ok; eassumption|]. split; reflexivity.
+        split; [apply FPre; assumption|]. split; [intros fly _; eapply fpre_ok; eassumption|]. split; reflexivity.
       * eexists. split; [cbn [pmon_step is_bad]; rewrite Ebad; reflexivity|].
-        split; [apply FPre; assumption|]. split; [eapply fpre_ok; eassumption|]. split; reflexivity.
+        split; [apply FPre; assumption|]. split; [intros fly _; eapply fpre_ok; eassumption|]. split; reflexivity.
   - (* poll *)
     destruct x; cbn [sys_step ep set_ep other gatt_of epA epB chAB chBA].
     + destruct Hpre as [(-> & -> & -> & ->)|[(-> & -> & -> & ->)|(-> & -> & -> & ->)]].
@@ -281,27 +282,27 @@ Proof.
         split; [|split; [|split; reflexivity]].
         -- unfold ps_emit. rewrite req_not_data, req_no_ack. cbn [w_ab w_ba f_ab f_ba o_ab o_ba].
            change (0 + 0) with 0. apply FPre; try assumption. right. left. repeat split.
-        -- unfold ps_emit. rewrite req_not_data, req_no_ack. cbn [w_ab w_ba f_ab f_ba o_ab o_ba].
+        -- intros fly _. unfold ps_emit. rewrite req_not_data, req_no_ack. cbn [w_ab w_ba f_ab f_ba o_ab o_ba].
            change (0 + 0) with 0. eapply (fpre_ok sA1 sB0). right. left. repeat split.
       * unfold sA1. rewrite step_poll_idle by reflexivity. cbn [fst snd set_ep epA epB chAB chBA].
         eexists. split; [reflexivity|]. fold sA1.
         split; [apply FPre; try assumption; right; left; repeat split|].
-        split; [eapply (fpre_ok sA1 sB0); right; left; repeat split|]. split; reflexivity.
+        split; [intros fly _; eapply (fpre_ok sA1 sB0); right; left; repeat split|]. split; reflexivity.
       * unfold sA1. rewrite step_poll_idle by reflexivity. cbn [fst snd set_ep epA epB chAB chBA].
         eexists. split; [reflexivity|]. fold sA1.
         split; [apply FPre; try assumption; right; right; repeat split|].
-        split; [eapply (fpre_ok sA1 sB1); right; right; repeat split|]. split; reflexivity.
+        split; [intros fly _; eapply (fpre_ok sA1 sB1); right; right; repeat split|]. split; reflexivity.
     + destruct Hpre as [(-> & -> & -> & ->)|[(-> & -> & -> & ->)|(-> & -> & -> & ->)]].
       * unfold sB0, set_relaxed, session_new. rewrite step_poll_idle by reflexivity.
         cbn [fst snd set_ep epA epB chAB chBA].
         eexists. split; [reflexivity|].
         split; [apply (FPre sA0 sB0); try assumption; left; repeat split|].
-        split; [eapply (fpre_ok sA0 sB0); left; repeat split|]. split; reflexivity.
+        split; [intros fly _; eapply (fpre_ok sA0 sB0); left; repeat split|]. split; reflexivity.
       * unfold sB0, set_relaxed, session_new. rewrite step_poll_idle by reflexivity.
         cbn [fst snd set_ep epA epB chAB chBA].
         eexists. split; [reflexivity|].
         split; [apply (FPre sA1 sB0); try assumption; right; left; repeat split|].
-        split; [eapply (fpre_ok sA1 sB0); right; left; repeat split|]. split; reflexivity.
+        split; [intros fly _; eapply (fpre_ok sA1 sB0); right; left; repeat split|]. split; reflexivity.
       * unfold sB1. fold (B1 rel (addrA c) fm fw oaB bB 0). rewrite hs_step3 by lia.
         unfold resp_bytes.
         cbn [fst snd set_ep set_ch_to ch_to other epA epB chAB chBA app].
@@ -312,7 +313,7 @@ Proof.
         split; [|split; [|split; reflexivity]].
         -- fold (A1 oaA bA 0). apply FResp; [assumption|reflexivity|].
            unfold set_oba. cbn [w_ab w_ba f_ab f_ba o_ab o_ba]. apply established_inv_q; assumption.
-        -- unfold ps_ok, win_ok, snap_of, B2, sA1.
+        -- intros fly _. unfold ps_ok, win_ok, snap_of, B2, sA1.
            cbn [epA epB sess recv send recvw_new sendw_new rlevel rack_level slevel swin n_rlevel n_rack n_slevel n_swin
                 f_ab f_ba o_ab o_ba]. lia.
   - (* deliver *)
@@ -320,25 +321,25 @@ Proof.
     + assert (Ecba : cba = []) by (destruct Hpre as [(_ & _ & _ & E)|[(_ & _ & _ & E)|(_ & _ & _ & E)]]; exact E).
       subst cba. cbn [fst snd chAB chBA tl].
       eexists. split; [reflexivity|].
-      split; [apply FPre; assumption|]. split; [eapply fpre_ok; eassumption|]. split; reflexivity.
+      split; [apply FPre; assumption|]. split; [intros fly _; eapply fpre_ok; eassumption|]. split; reflexivity.
     + destruct Hpre as [(-> & -> & -> & ->)|[(-> & -> & -> & ->)|(-> & -> & -> & ->)]].
       * cbn [fst snd chAB chBA tl]. eexists. split; [reflexivity|].
         split; [apply (FPre sA0 sB0); try assumption; left; repeat split|].
-        split; [eapply (fpre_ok sA0 sB0); left; repeat split|]. split; reflexivity.
+        split; [intros fly _; eapply (fpre_ok sA0 sB0); left; repeat split|]. split; reflexivity.
       * unfold sB0. fold (B0 rel oaB bB 0). rewrite hs_step2.
         cbn [fst snd set_ep set_ch_to epA epB chAB chBA tl].
         eexists. split; [cbn [pmon_step is_bad]; reflexivity|].
         rewrite req_not_data. unfold ps_deliver. cbn [w_ab w_ba f_ab f_ba o_ab o_ba].
         split; [apply (FPre sA1 sB1); try assumption; right; right; repeat split|].
-        split; [eapply (fpre_ok sA1 sB1); right; right; repeat split|]. split; reflexivity.
+        split; [intros fly _; eapply (fpre_ok sA1 sB1); right; right; repeat split|]. split; reflexivity.
       * cbn [fst snd chAB chBA tl]. eexists. split; [reflexivity|].
         split; [apply (FPre sA1 sB1); try assumption; right; right; repeat split|].
-        split; [eapply (fpre_ok sA1 sB1); right; right; repeat split|]. split; reflexivity.
+        split; [intros fly _; eapply (fpre_ok sA1 sB1); right; right; repeat split|]. split; reflexivity.
   - (* fetch *)
     destruct x; cbn [sys_step ep set_ep epA epB chAB chBA];
       rewrite step_recv_idle by assumption; cbn [fst snd set_ep epA epB chAB chBA];
       (eexists; split; [reflexivity|]; split; [apply FPre; assumption|];
-       split; [eapply fpre_ok; eassumption|]; split; reflexivity).
+       split; [intros fly _; eapply fpre_ok; eassumption|]; split; reflexivity).
 Qed.
 
 Lemma set_oba_idem p : o_ba p = 0 -> set_oba (set_oba p 1) 0 = p.
@@ -386,10 +387,10 @@ Proof.
             out_ok (addrB c) oa' b' -> o_ba q = 0 ->
             sysinv fm fw c (mkSys (A2 (addrB c) fm fw oa' b' 0) B' [] c2) (set_oba q 1) ->
             fresh_inv (mkSys (A1 oa' b' 0) B' [] (resp_bytes fm fw :: c2)) q /\
-            ps_ok q (snap_of (A1 oa' b' 0)) (snap_of B') = true).
-  { intros oa' b' B' c2 q Ho Hq Hs. split; [apply FResp; assumption|].
+            (forall fly, ps_ok q (snap_of (A1 oa' b' 0)) (snap_of B') fly = true)).
+  { intros oa' b' B' c2 q Ho Hq Hs. split; [apply FResp; assumption|]. intro fly.
     pose proof (ps_ok_inv fm fw Hm Hw Hc c _ _ Hs) as Hok. cbn [epA epB] in Hok.
-    apply ps_ok_devirt in Hok; [|reflexivity|reflexivity].
+    apply (ps_ok_devirt _ _ _ _ fly) in Hok; [|reflexivity|reflexivity].
     rewrite set_oba_idem in Hok by assumption. exact Hok. }
   unfold step_concl. cbv zeta.
   destruct o as [x d|x t|x|x].
@@ -406,19 +407,19 @@ Proof.
       destruct (pmon_step p (SSubmit SA d) r false) as [q|] eqn:Eq; [|discriminate].
       inversion Hst; subst pv'. specialize (Hoba q eq_refl).
       destruct (Hdevirt oa' b' B c' q Hok' ltac:(lia) Hi) as (Hf & Hk).
-      exists q. split; [reflexivity|]. split; [exact Hf|]. split; [exact Hk|]. split; reflexivity.
+      exists q. split; [reflexivity|]. split; [exact Hf|]. split; [intros fly _; apply Hk|]. split; reflexivity.
     + destruct (step B (OSend d (addrA c))) as [i r]. cbn [fst snd set_ep epA epB chAB chBA] in *.
       destruct Hs as (pv' & Hst & Hi & _). rewrite Hcomm in Hst.
       destruct (pmon_step p (SSubmit SB d) r false) as [q|] eqn:Eq; [|discriminate].
       inversion Hst; subst pv'. specialize (Hoba q eq_refl).
       destruct (Hdevirt oaA bA i c' q HA ltac:(lia) Hi) as (Hf & Hk).
-      exists q. split; [reflexivity|]. split; [exact Hf|]. split; [exact Hk|]. split; reflexivity.
+      exists q. split; [reflexivity|]. split; [exact Hf|]. split; [intros fly _; apply Hk|]. split; reflexivity.
   - (* poll *)
     destruct x; cbn [sys_step ep set_ep other gatt_of epA epB chAB chBA ch_to set_ch_to].
     + unfold A1. rewrite step_poll_idle by reflexivity. cbn [fst snd set_ep epA epB chAB chBA].
       fold (A1 oaA bA 0).
       destruct (Hdevirt oaA bA B c' p HA Hob Hv) as (Hf & Hk).
-      exists p. split; [reflexivity|]. split; [exact Hf|]. split; [exact Hk|]. split; reflexivity.
+      exists p. split; [reflexivity|]. split; [exact Hf|]. split; [intros fly _; apply Hk|]. split; reflexivity.
     + pose proof (sys_step_inv fm fw Hm Hw Hc c _ _ (SPoll SB t) Hv) as Hs. cbv zeta in Hs.
       destruct (pmon_step_oba p 1 (SPoll SB t)
                   (snd (sys_step c (mkSys (A2 (addrB c) fm fw oaA bA 0) B [] c') (SPoll SB t))) false)
@@ -431,22 +432,22 @@ Proof.
         inversion Hst; subst pv'; specialize (Hoba q eq_refl);
         match type of Hi with sysinv _ _ _ (mkSys _ _ _ ?c2) _ =>
           destruct (Hdevirt oaA bA i c2 q HA ltac:(lia) Hi) as (Hf & Hk) end;
-        (exists q; split; [reflexivity|]; split; [exact Hf|]; split; [exact Hk|]; split; reflexivity).
+        (exists q; split; [reflexivity|]; split; [exact Hf|]; split; [intros fly _; apply Hk|]; split; reflexivity).
   - (* deliver *)
     destruct x; cbn [sys_step ep set_ep other gatt_of addr_of ch_to set_ch_to epA epB chAB chBA].
     + rewrite hs_step4 by assumption. cbn [fst snd set_ep set_ch_to epA epB chAB chBA tl].
       rewrite resp_not_data.
       exists (set_oba p 1). split; [destruct p as [a1 a2 a3 a4 a5 a6]; reflexivity|].
       split; [apply FEst; exact Hv|].
-      split; [apply (ps_ok_inv fm fw Hm Hw Hc c _ _ Hv)|]. split; reflexivity.
+      split; [intros fly ->; apply (ps_ok_inv fm fw Hm Hw Hc c _ _ Hv)|]. split; reflexivity.
     + cbn [fst snd chAB chBA tl].
       destruct (Hdevirt oaA bA B c' p HA Hob Hv) as (Hf & Hk).
-      exists p. split; [reflexivity|]. split; [exact Hf|]. split; [exact Hk|]. split; reflexivity.
+      exists p. split; [reflexivity|]. split; [exact Hf|]. split; [intros fly _; apply Hk|]. split; reflexivity.
   - (* fetch *)
     destruct x; cbn [sys_step ep set_ep epA epB chAB chBA].
     + rewrite step_recv_idle by reflexivity. cbn [fst snd set_ep epA epB chAB chBA].
       destruct (Hdevirt oaA bA B c' p HA Hob Hv) as (Hf & Hk).
-      exists p. split; [reflexivity|]. split; [exact Hf|]. split; [exact Hk|]. split; reflexivity.
+      exists p. split; [reflexivity|]. split; [exact Hf|]. split; [intros fly _; apply Hk|]. split; reflexivity.
     + pose proof (sys_step_inv fm fw Hm Hw Hc c _ _ (SFetch SB) Hv) as Hs. cbv zeta in Hs.
       destruct (pmon_step_oba p 1 (SFetch SB)
                   (snd (sys_step c (mkSys (A2 (addrB c) fm fw oaA bA 0) B [] c') (SFetch SB))) false)
@@ -457,7 +458,7 @@ Proof.
       destruct (pmon_step p (SFetch SB) r false) as [q|] eqn:Eq; [|discriminate].
       inversion Hst; subst pv'. specialize (Hoba q eq_refl).
       destruct (Hdevirt oaA bA i c' q HA ltac:(lia) Hi) as (Hf & Hk).
-      exists q. split; [reflexivity|]. split; [exact Hf|]. split; [exact Hk|]. split; reflexivity.
+      exists q. split; [reflexivity|]. split; [exact Hf|]. split; [intros fly _; apply Hk|]. split; reflexivity.
 Qed.
 
 (** one step from any state of the invariant *)
@@ -471,39 +472,14 @@ Qed.
 
 Lemma fresh_run ops : forall s p,
   fresh_inv s p ->
-  pmon_run p (map is_data_seg (chAB s)) (map is_data_seg (chBA s)) ops (snd (sys_run c s ops)) = true.
+  pmon_run p (chAB s) (chBA s) ops (snd (sys_run c s ops)) = true.
 Proof.
   induction ops as [|o ops IH]; intros s p Hinv; [reflexivity|].
   rewrite sys_run_cons. cbn [snd pmon_run].
   destruct (fresh_step s p o Hinv) as (p' & Hstep & Hinv' & Hok & HcAB & HcBA).
   set (s' := fst (sys_step c s o)) in *. set (r := snd (sys_step c s o)) in *.
-  assert (Ehd : match o with
-                | SDeliver SB => match map is_data_seg (chAB s) with b :: _ => b | [] => false end
-                | SDeliver SA => match map is_data_seg (chBA s) with b :: _ => b | [] => false end
-                | _ => false
-                end =
-                match o with
-                | SDeliver SB => match chAB s with b :: _ => is_data_seg b | [] => false end
-                | SDeliver SA => match chBA s with b :: _ => is_data_seg b | [] => false end
-                | _ => false
-                end).
-  { destruct o as [x d|x t|x|x]; try reflexivity. destruct x; [destruct (chBA s)|destruct (chAB s)]; reflexivity. }
-  rewrite Ehd, Hstep, Hok. cbn [andb].
-  assert (EA : match o, r with
-               | SPoll SA _, RBytes (x :: l) => map is_data_seg (chAB s) ++ [is_data_seg (x :: l)]
-               | SDeliver SB, _ => tl (map is_data_seg (chAB s))
-               | _, _ => map is_data_seg (chAB s)
-               end = map is_data_seg (chAB s')).
-  { rewrite HcAB. destruct o as [[]?|[]?|[]|[]]; destruct r as [|[|? ?]| | | |];
-      rewrite ?map_app, ?map_tl; reflexivity. }
-  assert (EB : match o, r with
-               | SPoll SB _, RBytes (x :: l) => map is_data_seg (chBA s) ++ [is_data_seg (x :: l)]
-               | SDeliver SA, _ => tl (map is_data_seg (chBA s))
-               | _, _ => map is_data_seg (chBA s)
-               end = map is_data_seg (chBA s')).
-  { rewrite HcBA. destruct o as [[]?|[]?|[]|[]]; destruct r as [|[|? ?]| | | |];
-      rewrite ?map_app, ?map_tl; reflexivity. }
-  rewrite EA, EB. apply IH. exact Hinv'.
+  unfold head_is_data. rewrite Hstep, <- HcAB, <- HcBA.
+  rewrite (Hok _ eq_refl). cbn [andb]. apply IH. exact Hinv'.
 Qed.
 
 Lemma fresh_init : fresh_inv (sys_fresh rel) ps_init.
